@@ -19,7 +19,7 @@ theorem SameAlloc.trans {a b d : Mem} (h1 : SameAlloc a b) (h2 : SameAlloc b d) 
   ⟨h2.1.trans h1.1, h2.2.trans h1.2⟩
 
 section
-variable {c : Cfg} {H : Nat → Prop} {P : Nat → Nat} {R : Nat → Prop} {m : Mem}
+variable {c : Cfg} {H : Nat → Nat} {P : Nat → Nat} {R : Nat → Prop} {m : Mem}
 
 /-- `Trees::put`: `n` unaccounted free frames of tree `i` are added to its counter -/
 theorem tput_spec (ok : CfgOk c) (inv : UpperInv c H P R m) (i n : Nat) (hi : i < c.ntrees) (hn : n ≤ P i) :
